@@ -541,7 +541,9 @@ func (self Reflect) strukt(ptrVal reflect.Value) node.Node {
 			return self.child(childVal), nil
 		},
 		OnField: func(r node.FieldRequest, hnd *node.ValueHandle) (err error) {
-			if r.Write {
+			if r.Write && r.Clear {
+				err = self.clearField(r.Meta, ptrVal)
+			} else if r.Write {
 				err = self.WriteField(r.Meta, ptrVal, hnd.Val)
 			} else {
 				hnd.Val, err = self.ReadField(r.Meta, ptrVal)
@@ -549,6 +551,21 @@ func (self Reflect) strukt(ptrVal reflect.Value) node.Node {
 			return
 		},
 	}
+}
+
+// clearField is the write of "no value": a leaf that is deleted, or that belongs to a case
+// which is no longer the selected one, goes back to the zero value of its field
+func (self Reflect) clearField(m meta.Leafable, ptrVal reflect.Value) error {
+	elemVal := ptrVal.Elem()
+	if !elemVal.IsValid() {
+		return fmt.Errorf("%w. cannot clear '%s' on invalid or nil %s", fc.BadRequestError, m.Ident(), ptrVal)
+	}
+	fieldVal := elemVal.FieldByName(GetFieldName(ptrVal, m.Ident()))
+	if !fieldVal.IsValid() || !fieldVal.CanSet() {
+		return fmt.Errorf("%w. no field for '%s' on %s that can be cleared", fc.BadRequestError, m.Ident(), elemVal.Type())
+	}
+	fieldVal.Set(reflect.Zero(fieldVal.Type()))
+	return nil
 }
 
 // ///////////////
